@@ -10,7 +10,7 @@ if os.path.isdir(dst + "/demo"):
     shutil.rmtree(dst + "/demo")
 shutil.copytree(src + "/demo", dst + "/demo")
 meta = json.load(open(src + "/meta.json"))
-ver = open(src + "/verified.txt").read()
+ver = open(src + "/verified.txt", errors="replace").read()
 meta["property"] = prop
 meta["confirmed_by_me"] = "lib/verify_seed.sh in a fresh scratch worktree of /repo HEAD: patch applies, go build ./... ok, demo passes without the change and fails with it, go test ./... with the change fails only the two baseline-failing tests (anonymised_dhcpd_log emptied)"
 meta["verification_log_excerpt"] = [l for l in ver.splitlines() if l.startswith(("==", "rc=", "--- FAIL", "ok", "PATCH"))][:30]
